@@ -16,7 +16,7 @@ CLAIMED = {
              note="inputs longer than the stated bounds that share no structure with the enumerated ones are outside the claim", ref="§4 C07"),
  "C18": dict(tech="model checking: complete enumeration of the dial configuration matrix on the real Dialer against in-process HTTP/HTTPS CONNECT proxies, a SOCKS5 server and TLS back-ends over deterministic synchronous pipes; every peer logs what it saw",
              text="Proxy sees exactly one CONNECT host:port (defaults 80/443) with Basic auth iff a password is present; SOCKS5 equivalent; non-200 aborts with an error and nothing is sent on; wss requests arrive only inside a TLS session verified for the URL host on every path; wrong-host / untrusted certificates fail; first hop uses the applicable hook; backend never dialed directly when a proxy is configured.",
-             note="cells needing the real network (no NetDial/NetDialContext with a plain first hop) are not enumerated; crypto/tls and x/net/proxy trusted", ref="§4 C18"),
+             note="hook-less cells (default net.Dialer) run on real loopback TCP listeners; crypto/tls and x/net/proxy trusted", ref="§4 C18"),
  "C15": dict(tech="model checking: complete enumeration of EnableCompression pairs x client offers x server replies on the real Dialer/Upgrader (in-process handshake) followed by message flow under every sequence of <=3 write-compression setting calls; compression state observed behaviourally",
              text="Both ends' 'accepts compressed' (verdict on a conformant RSV1 message from the independent encoder) and 'compresses' (RSV1 on a message written with compression enabled) must equal 'the 101 announced permessage-deflate with both no_context_takeover parameters'; all messages round-trip under every toggle sequence.",
              note="a connection is never required to compress", ref="§4 C15"),
